@@ -397,4 +397,8 @@ def check(ctx):
         r4_set_config(ctx, f, rep)
         r5_ordering(ctx, f, rep)
         r6_validate(ctx, f, rep)
+        from . import c10, c11
+        from .c09 import _Rename
+        c10.r2_identity(ctx, f, _Rename(rep, 'C10-R2', 'C13-R1'), eff)
+        c11.r2_creation(ctx, f, _Rename(rep, 'C11-R2', 'C13-R3'))
     rep.cur_config = None
